@@ -231,6 +231,10 @@ Expand(s) ==
                        \cup { Bin("|", Bin("|", A, B), C) : A \in Pool, B \in Pool, C \in PathPoolSmall }
                        \cup { Bin("|", A, Bin("|", B, C)) : A \in PathPoolSmall, B \in Pool, C \in PathPoolSmall }
                        \cup { Fn1("count", Bin("|", A, B)) : A \in Pool, B \in Pool }
+                       \* union binds tighter than unary minus and every binary operator
+                       \cup { NegE(Bin("|", A, B)) : A \in PathPoolSmall, B \in PathPoolSmall }
+                       \cup { Bin(o, Bin("|", A, B), NumL(12)) : o \in {"=", "<", "+", "*", "and"}, A \in PathPoolSmall, B \in PathPoolSmall }
+                       \cup { Bin(o, NumL(2), Bin("|", A, B)) : o \in {"!=", ">=", "-", "div", "or"}, A \in PathPoolSmall, B \in PathPoolSmall }
     [] s.fam = "fl" -> { Filt(A, p, st) : A \in Pool, p \in FilterPreds, st \in FilterSteps }
                        \cup { Filt(Bin("|", A, B), p, <<>>) : A \in Pool, B \in PathPoolSmall, p \in FilterPreds }
     [] s.fam = "cmp" -> { Bin(o, A, B) : o \in CmpOps, A \in Pool \cup ScalarPool,
